@@ -576,12 +576,52 @@ fn normalise(kids: &mut Vec<Group>, path: &str, rename: Option<(u32, u32)>, mask
     }
 }
 
+/// Inside `members_index` a `LuaMemberIndexItem::Many(vec![x])` is rewritten to `One(x)`: the two are the same answer to every query
+/// (`get_member_ids`, `resolve_type`: the union of one type, `resolve_semantic_decl`; `is_one` has no caller), and `LuaMemberIndex::remove`
+/// legitimately leaves the former where a file that once shared the key is gone. Comparing them as different was a false alarm of
+/// this search (formerly listed as finding L4), not a trace of the removed file.
+fn one_of_many(dump: &str) -> String {
+    let lines: Vec<&str> = dump.lines().collect();
+    let ind = |l: &str| l.len() - l.trim_start().len();
+    let mut out: Vec<String> = Vec::with_capacity(lines.len());
+    let mut inside = false;
+    let mut i = 0;
+    while i < lines.len() {
+        let l = lines[i];
+        if ind(l) == 4 {
+            inside = l.trim_start().starts_with("members_index: ");
+        }
+        if inside && l.ends_with("Many(") && i + 1 < lines.len() && lines[i + 1].trim() == "[" && ind(lines[i + 1]) == ind(l) + 4 {
+            let d = ind(l);
+            // the matching `],`
+            let mut j = i + 2;
+            while j < lines.len() && !(ind(lines[j]) == d + 4 && lines[j].trim_start().starts_with(']')) {
+                j += 1;
+            }
+            let elems = (i + 2..j.min(lines.len()))
+                .filter(|&k| ind(lines[k]) == d + 8 && !lines[k].trim_start().starts_with(['}', ')', ']']))
+                .count();
+            if j < lines.len() && elems == 1 {
+                out.push(format!("{}One(", &l[..l.len() - "Many(".len()]));
+                for k in i + 2..j {
+                    out.push(lines[k][4..].to_string());
+                }
+                i = j + 1;
+                continue;
+            }
+        }
+        out.push(l.to_string());
+        i += 1;
+    }
+    out.join("\n")
+}
+
 /// the database dump as a tree: children of the root = the indexes
 fn snap(a: &EmmyLuaAnalysis, rename: Option<(u32, u32)>, ignore: &[String]) -> Vec<Group> {
     snap_with(a, rename, rename.is_some(), ignore)
 }
 fn snap_with(a: &EmmyLuaAnalysis, rename: Option<(u32, u32)>, mask_ids: bool, ignore: &[String]) -> Vec<Group> {
-    let lines = collapse(&format!("{:#?}", a.compilation.get_db()));
+    let lines = collapse(&one_of_many(&format!("{:#?}", a.compilation.get_db())));
     let mut pos = 0;
     let mut root = parse_groups(&lines, &mut pos, 0);
     if root.len() != 1 || pos != lines.len() || root[0].segs.len() != 1 {
